@@ -58,6 +58,37 @@ func init() {
 				}
 				c.R.Count("names_checked", 1)
 			}
+			// "every lint name": also names a lint answers to WITHOUT being listed under them. Whatever Filter accepts
+			// as an include name puts a lint into a registry; if a listed rule can be selected under another severity
+			// prefix (an alias, a former name), the results it produces there are keyed by - and judged under - that
+			// name. Objects: those on which the listed lint shows each of its verdicts.
+			g := lint.GlobalRegistry()
+			for _, li := range Inv {
+				for _, p := range []string{"e_", "w_", "n_"} {
+					if strings.HasPrefix(li.Name, p) || len(li.Name) < 3 {
+						continue
+					}
+					alias := p + li.Name[2:]
+					if _, taken := InvBy[alias]; taken {
+						continue
+					}
+					reg, err := g.Filter(lint.FilterOptions{IncludeNames: []string{alias}})
+					c.R.Count("alias_names_tried", 1)
+					if err != nil || reg == nil {
+						continue
+					}
+					c.R.Count("alias_names_accepted", 1)
+					for _, idx := range c03ByStat[li.Name] {
+						o := W.Objs[idx]
+						rs, pv, _ := o.Lint(reg)
+						c.R.Count("evaluations", 1)
+						if pv != nil || rs == nil {
+							continue
+						}
+						c06Observe(c, o, mon.SnapOf(rs), o.Name+"~registry selected by the unlisted name "+alias)
+					}
+				}
+			}
 		},
 		Cases: func(c *mon.Ctx) int { return nSeeds + c.Pick(40000, 2000000) + directedCount(c) + len(c03Cases) + len(cfgWork) },
 		RunCase: func(c *mon.Ctx, i int) {
